@@ -24,7 +24,7 @@ from vlib import cli, common, fsmon
 from vlib.common import pmap, rng, Inconclusive
 
 LEVEL = "exploration"
-FLOOR = {"quick": 20, "thorough": 300}
+FLOOR = {"quick": 20, "thorough": 700}
 DEBOUNCE_MS = 5
 
 BASE = "BaseRec: !record\n  fields:\n    b: int\n"
@@ -134,7 +134,7 @@ def schedules(quick):
     """(name, delays, [(sleep_ms_before, target file, kind, payload, how)], final variant info)"""
     out = []
     gaps = [0, 1, 4, 6, 10, 50]
-    n_timed = 14 if quick else 200
+    n_timed = 14 if quick else 1200
     for i in range(n_timed):
         r = rng("C20t", i)
         steps = []
